@@ -41,6 +41,7 @@ func loopShapes(n *Normer, hdr *ssa.BasicBlock) []loopVar {
 		}
 		var in, st Poly
 		nIn, nSt, bad := 0, 0, false
+		prev, hadPrev := n.Bind[phi]
 		n.Bind[phi] = "\x00self"
 		for i, e := range phi.Edges {
 			if hdr.Dominates(hdr.Preds[i]) {
@@ -59,6 +60,9 @@ func loopShapes(n *Normer, hdr *ssa.BasicBlock) []loopVar {
 			}
 		}
 		delete(n.Bind, phi)
+		if hadPrev {
+			n.Bind[phi] = prev
+		}
 		if !bad && nIn == 1 && nSt >= 1 {
 			out = append(out, loopVar{phi, in, st})
 		}
